@@ -14,7 +14,7 @@ use crate::zf;
 use qvlib::wire::{self, c, t, wname};
 use qvlib::{hex, json, panic_key, unhex, Ctx, Local, Value};
 
-pub const RULE: &str = "every file = scenario (record list from a menu covering all supported types, with $ORIGIN/$TTL placements) x every set of <= k non-default presentation choices of an independent RFC 1035 s5 pretty-printer (owner abs/relative/@/blank/escaped; TTL/class omitted, swapped, lower-case, CLASSn; TYPEn; RDATA native or \\# in 1/2/n words; names relative/escaped; strings quoted/unquoted/\\DDD/raw; parentheses at every gap with LF/CRLF/comment inside; tabs; CRLF; comments; blank lines; EOF without newline), plus every single-nibble/length mutation of valid generic RDATA; oracle = the generating records with line numbers (RFC 1035 s5.1, RFC 2308 s4, RFC 3597 s5, RFC 2181 s8)";
+pub const RULE: &str = "every file = scenario (record list from a menu covering all supported types, with $ORIGIN/$TTL placements) x every set of <= k non-default presentation choices of an independent RFC 1035 s5 pretty-printer (owner abs/relative/@/blank/escaped; TTL/class omitted, swapped, lower-case, CLASSn; TYPEn; RDATA native or \\# in 1/2/n words; names relative/escaped; strings quoted/unquoted/\\DDD/raw; parentheses at every gap with LF/CRLF/comment inside; tabs; CRLF; comments; blank lines; EOF without newline), plus every single-nibble/length mutation of valid generic RDATA; plus short reads (default-rendered files delivered in uniform pieces of 1..8 octets, with one cut at every position, and with a 1/2/3-octet piece at every position); oracle = the generating records with line numbers (RFC 1035 s5.1, RFC 2308 s4, RFC 3597 s5, RFC 2181 s8)";
 
 fn ip6(s: &str) -> [u8; 16] {
     // tiny independent parser for the menu's fully written addresses
@@ -428,6 +428,7 @@ pub fn run(ctx: &'static Ctx) -> ! {
     });
     ctx.set_extra("infeasible_choice_combinations_skipped", json!(infeasible.load(std::sync::atomic::Ordering::Relaxed)));
     crate::bigfile::run(ctx);
+    crate::shortread::run(ctx);
     generic::run_family(ctx, watch, generic::Mode::Completeness);
     ctx.assume("the pretty-printer's reading of RFC 1035 s5.1 / RFC 2308 s4 / RFC 3597 s5 (see render.rs header); WKS bit maps are MSB-first (RFC 1035 s3.4.2, BIND)");
     watch.stop();
@@ -442,7 +443,12 @@ fn replay(ctx: &'static Ctx, case: Value) {
     let file = unhex(case["file"].as_str().or(case["input"].as_str()).unwrap_or(""));
     let expected: Vec<Flat> = case["expected"].as_array().map(|a| a.iter().map(Flat::from_json).collect()).unwrap_or_default();
     let f2 = file.clone();
-    let got = match watch::run_with_timeout(move || zf::parse_bytes(&f2)) {
+    // short-read family: the piece sizes the stream delivers
+    let pieces: Option<Vec<usize>> = case["pieces"].as_array().map(|a| a.iter().filter_map(|x| x.as_u64().map(|v| v as usize)).collect());
+    let got = match watch::run_with_timeout(move || match &pieces {
+        Some(p) => zf::parse_pieces(&f2, p),
+        None => zf::parse_bytes(&f2),
+    }) {
         Some(g) => g,
         None => {
             ctx.violation("hang", case.clone());
